@@ -343,8 +343,30 @@ struct HeapCellA : CellAdapter {   // Heap<Cell> with any cell cost function; op
   void change_param(Rng& r, const Palette& p) { double v = p.pick(r); if (v == v && std::fabs(v) != POS_INFINITY) cf->set_loup(v); }
 };
 
+// the second criterion written independently of the library's factory and cost classes (documented formulas), from the data of the
+// cell: compared with a tolerance (a rearranged formula may round differently), so that a criterion mapped to another one is seen
+static long g_costfn_lines = 0;
+static double my_cost2(Cell* c, int k, double loup) {
+  const BxpOptimData* d = (const BxpOptimData*)c->prop[BxpOptimData::get_id(*g_ext)];
+  const Interval& y = c->box[g_ext->goal_var()];
+  switch (k) {
+    case 0: return y.lb(); case 1: return y.ub();
+    case 2: return d ? -((loup - d->pf.lb()) / d->pf.diam()) : NAN;
+    case 3: return d ? -(d->pu * (loup - d->pf.lb()) / d->pf.diam()) : NAN;
+    case 4: return d ? y.lb() / (d->pu * (loup - d->pf.lb()) / d->pf.diam()) : NAN;
+    case 5: return d ? -d->pu : NAN;
+    case 6: return d ? d->pf.lb() : NAN;
+    case 7: return d ? d->pf.ub() : NAN;
+    default: return NAN;
+  }
+}
+static void cross_check_cost(const char* crit, double mine, double lib) {
+  bool same = (mine != mine && lib != lib) || mine == lib || (std::fabs(mine - lib) <= 1e-9 * std::max(1.0, std::max(std::fabs(mine), std::fabs(lib))));
+  if (!same || g_costfn_lines < 40) { printf("costfn %s %s => %s\n", crit, hex(mine).c_str(), hex(lib).c_str()); g_costfn_lines++; }
+}
+
 struct CDHA : CellAdapter {   // CellDoubleHeap
-  CellDoubleHeap* b; CellCostFunc* scratch; int k;
+  CellDoubleHeap* b; CellCostFunc* scratch; int k; double cur_loup = 10.0;
   CDHA(int critpr, int k) : k(k) {
     b = new CellDoubleHeap(*g_ext, critpr, (CellCostFunc::criterion)k);
     scratch = CellCostFunc::get_cost(*g_ext, (CellCostFunc::criterion)k, g_ext->goal_var());
@@ -355,7 +377,7 @@ struct CDHA : CellAdapter {   // CellDoubleHeap
   ~CDHA() { delete b; delete scratch; }
   bool tree(int crit, vector<int>& o) { o = shared_tree(crit ? b->heap2 : b->heap1, [](Cell* c) { return cell_id(c); }); return true; }
   void prepare(Cell* c, Rng*, const Palette*) { b->add_property(c->box, c->prop); b->cost2().set_optim_data(*c); }
-  void costs(Cell* c, double& c1, double& c2, double& lb) { lb = c->box[2].lb(); c1 = b->cost1().cost(*c); c2 = b->cost2().cost(*c); }
+  void costs(Cell* c, double& c1, double& c2, double& lb) { lb = c->box[2].lb(); c1 = b->cost1().cost(*c); c2 = b->cost2().cost(*c); if (k <= 7) cross_check_cost(crit_name(k), my_cost2(c, k, cur_loup), c2); }
   void push(Cell* c) { b->push(c); }
   Cell* pop(int sel, int& w) {
     if (sel == 1) { w = 0; return b->pop1(); } if (sel == 2) { w = 1; return b->pop2(); }
@@ -372,7 +394,7 @@ struct CDHA : CellAdapter {   // CellDoubleHeap
     for (auto& kv : live) { double c = scratch->cost(*kv.second); if (c != c) return false; }
     return true;
   }
-  void contract(double l) { b->contract(l); }
+  void contract(double l) { b->contract(l); if (b->cost2().depends_on_loup) cur_loup = l; }
   int recost_after_contract() { return 1; }   // heap2 is built with update_cost_when_sorting = true
   // after contract(loup) the second criterion is the cost w.r.t. the NEW loup: evaluated by an independent
   // cost-function object of the same class (its loup was set in contract_ok)
@@ -380,7 +402,7 @@ struct CDHA : CellAdapter {   // CellDoubleHeap
   void flush() { b->flush(); }
   unsigned size() { return b->size(); }
   bool empty() { return b->empty(); }
-  void change_param(Rng& r, const Palette& p) { double v = p.pick(r); if (v == v && std::fabs(v) != POS_INFINITY) b->cost2().set_loup(v); }
+  void change_param(Rng& r, const Palette& p) { double v = p.pick(r); if (v == v && std::fabs(v) != POS_INFINITY) { b->cost2().set_loup(v); cur_loup = v; } }
   bool heaps(vector<int>& h1, vector<int>& h2) {
     if (b->heap1->nb_nodes > 0) for (HeapElt<Cell>* e : b->heap1->elt()) h1.push_back(e->data ? cell_id(e->data) : -1);
     if (b->heap2->nb_nodes > 0) for (HeapElt<Cell>* e : b->heap2->elt()) h2.push_back(e->data ? cell_id(e->data) : -1);
